@@ -33,6 +33,8 @@ pub struct GoRec {
     pub accepted: bool,
     pub read_seq: u64,
     pub read_t: u64,
+    /// when the GUI sent this `go`, if it sent it after it had received every outstanding bestmove (engine idle)
+    pub sent_idle_t: Option<u64>,
     pub read_tp: u64,
     pub search: Option<Tid>,
     pub search_flag: Option<usize>,
@@ -247,6 +249,7 @@ pub fn analyse_session(case: &Case, out: &Outcome) -> Analysis {
     let mut gos: Vec<GoRec> = vec![];
     let mut thread_go: BTreeMap<Tid, usize> = BTreeMap::new();
     let mut sent_seq: BTreeMap<u32, u64> = BTreeMap::new();
+    let mut sent_time: BTreeMap<u32, u64> = BTreeMap::new();
     // current main command
     let mut cmd_id: u32 = 0;
     let mut cmd_tok = String::new();
@@ -360,6 +363,7 @@ pub fn analyse_session(case: &Case, out: &Outcome) -> Analysis {
         match &e.k {
             EvK::GuiSend { id, line } => {
                 sent_seq.insert(*id, e.seq);
+                sent_time.insert(*id, e.t);
                 if line.split_ascii_whitespace().next() == Some("isready") {
                     isready_sent += 1;
                 }
@@ -374,6 +378,9 @@ pub fn analyse_session(case: &Case, out: &Outcome) -> Analysis {
                     "position" => cmd_pos = Some(parse_position(line)),
                     "go" => {
                         let mut g = GoRec { cmd: *id, line: line.clone(), read_seq: e.seq, read_t: e.t, read_tp: e.tp, ..Default::default() };
+                        if sent_seq.get(id).copied().unwrap_or(0) > last_best_seq && outstanding.is_none() {
+                            g.sent_idle_t = sent_time.get(id).copied();
+                        }
                         match &cur {
                             Cur::Known(p, _) => {
                                 g.root = Some(p.clone());
@@ -765,6 +772,16 @@ pub fn analyse_session(case: &Case, out: &Outcome) -> Analysis {
                     let took = g.best_t - g.read_t;
                     if took > allowed {
                         a.v("C13", "R3-late", g.cmd, format!("`{}`: bestmove after {} ns although only {} ms were available (+{} ns of simulator slack)", g.line, took, l, allowed - limit_ns));
+                    }
+                    // the GUI's clock runs from the moment it sends the `go`: when it sent it to an idle engine (every
+                    // earlier bestmove received), the time until the engine gets round to reading it counts as well; the
+                    // stdin loop passes about a dozen scheduling points between two commands
+                    if let Some(ts) = g.sent_idle_t {
+                        let main_slack = 12 * (case.params.fair as u64 + 1) * case.params.node_cost;
+                        let took = g.best_t.saturating_sub(ts);
+                        if took > allowed.saturating_add(main_slack) {
+                            a.v("C13", "R3-late", g.cmd, format!("`{}`: sent to an idle engine, bestmove {} ns after the GUI sent it although only {} ms were available (the engine read the command {} ns after it was sent)", g.line, took, l, g.read_t.saturating_sub(ts)));
+                        }
                     }
                 } else if matches!(out.verdict, Verdict::StepLimit | Verdict::PollLimit) && out.now.saturating_sub(g.read_t) > allowed {
                     a.v("C13", "R3-late", g.cmd, format!("`{}`: still no bestmove {} ns after the go although only {} ms were available", g.line, out.now - g.read_t, l));
